@@ -10,3 +10,118 @@ package v120
 //@ effects UpdateVestingAccountTraces trace.write
 //@ effects ModifyVestingAccountsState auth.setaccount
 //@ effects upgradeVestingAccounnt auth.setaccount
+
+//@ // ---- C16: the validators-pool split moves locked value between pool records, it never creates or destroys any ----
+//@ pred poolSound(p) = !p.InitiallyLocked.IsNil() && !p.Withdrawn.IsNil() && !p.Sent.IsNil() && p.Withdrawn >= 0 && p.Sent >= 0 && p.Withdrawn + p.Sent <= p.InitiallyLocked
+//@ pred poolsNonNil(s) = forall i: int :: {s[i]} 0 <= i && i < len(s) ==> s[i] != nil
+//@ func splitVestingPool(vestingPools, validatorsVestingPools, poolName, vestingType, locked, addYears, addMonths) (res, err)
+//@   requires vestingPools != nil && validatorsVestingPools != nil && !locked.IsNil() && locked >= 0 && poolSound(validatorsVestingPools)
+//@   requires off(vestingPools.VestingPools) == 0 && poolsNonNil(vestingPools.VestingPools)
+//@   modifies *validatorsVestingPools, *vestingPools
+//@   // not enough locked: nothing changes
+//@   ensures err != nil ==> validatorsVestingPools.InitiallyLocked == old(validatorsVestingPools.InitiallyLocked) && len(vestingPools.VestingPools) == old(len(vestingPools.VestingPools))
+//@   ensures (err == nil) == (old(validatorsVestingPools.InitiallyLocked - validatorsVestingPools.Sent - validatorsVestingPools.Withdrawn) >= locked)
+//@   // enough locked: the old pool gives up exactly `locked` of its initially locked amount and keeps its history; it stays solvent
+//@   ensures err == nil ==> validatorsVestingPools.InitiallyLocked == old(validatorsVestingPools.InitiallyLocked) - locked
+//@     && validatorsVestingPools.Sent == old(validatorsVestingPools.Sent) && validatorsVestingPools.Withdrawn == old(validatorsVestingPools.Withdrawn)
+//@     && validatorsVestingPools.Name == old(validatorsVestingPools.Name) && validatorsVestingPools.LockStart == old(validatorsVestingPools.LockStart)
+//@     && validatorsVestingPools.LockEnd == old(validatorsVestingPools.LockEnd) && poolSound(validatorsVestingPools)
+//@   // ... and one new genesis pool holding exactly `locked`, untouched, is appended; the other pools are the same objects
+//@   ensures err == nil ==> len(vestingPools.VestingPools) == old(len(vestingPools.VestingPools)) + 1 && off(vestingPools.VestingPools) == 0
+//@     && (forall i: int :: {vestingPools.VestingPools[i]} 0 <= i && i < old(len(vestingPools.VestingPools)) ==> vestingPools.VestingPools[i] == old(vestingPools.VestingPools[i]))
+//@     && fresh(vestingPools.VestingPools[old(len(vestingPools.VestingPools))])
+//@     && newPoolOf(vestingPools.VestingPools[old(len(vestingPools.VestingPools))], poolName, vestingType, locked)
+//@   prop C16
+//@ pred newPoolOf(p, name, vt, locked) = p != nil && p.Name == name && p.VestingType == vt && !p.InitiallyLocked.IsNil() && p.InitiallyLocked == locked
+//@   && !p.Withdrawn.IsNil() && p.Withdrawn == 0 && !p.Sent.IsNil() && p.Sent == 0 && p.GenesisPool
+
+//@ spec func splitSum() int = 72000000000000
+//@ // all four splits or none: with at least the whole split amount locked, no split can fail; the pool list is stored once, at the end
+//@ func modifyAndAddVestingPools(ctx, appKeepers, vestingPoolsP, validatorsVestingPools) (err)
+//@   requires vestingPoolsP != nil && validatorsVestingPools != nil && poolSound(validatorsVestingPools)
+//@   requires off(vestingPoolsP.VestingPools) == 0 && poolsNonNil(vestingPoolsP.VestingPools) && len(vestingPoolsP.VestingPools) >= 0
+//@   requires validatorsVestingPools.InitiallyLocked - validatorsVestingPools.Sent - validatorsVestingPools.Withdrawn >= splitSum()
+//@   modifies *validatorsVestingPools, *vestingPoolsP, $pFound, $pLen, $pName, $pType, $pLockStart, $pLockEnd, $pIL, $pW, $pS, $pGenesis
+//@   ensures [complete] err == nil
+//@   ensures [old-pool] validatorsVestingPools.InitiallyLocked == old(validatorsVestingPools.InitiallyLocked) - splitSum()
+//@     && validatorsVestingPools.Sent == old(validatorsVestingPools.Sent) && validatorsVestingPools.Withdrawn == old(validatorsVestingPools.Withdrawn) && poolSound(validatorsVestingPools)
+//@   ensures [new-pools] len(vestingPoolsP.VestingPools) == old(len(vestingPoolsP.VestingPools)) + 4
+//@     && (forall i: int :: {vestingPoolsP.VestingPools[i]} 0 <= i && i < old(len(vestingPoolsP.VestingPools)) ==> vestingPoolsP.VestingPools[i] == old(vestingPoolsP.VestingPools[i]))
+//@     && newPoolOf(vestingPoolsP.VestingPools[old(len(vestingPoolsP.VestingPools))], "VC round pool", "VC round", 15000000000000)
+//@     && newPoolOf(vestingPoolsP.VestingPools[old(len(vestingPoolsP.VestingPools)) + 1], "Early-bird round pool", "Early-bird round", 8000000000000)
+//@     && newPoolOf(vestingPoolsP.VestingPools[old(len(vestingPoolsP.VestingPools)) + 2], "Public round pool", "Public round", 9000000000000)
+//@     && newPoolOf(vestingPoolsP.VestingPools[old(len(vestingPoolsP.VestingPools)) + 3], "Strategic reserve short term round pool", "Strategic reserve short term round", 40000000000000)
+//@   // what is stored for the owner is this list, record by record; no other owner's pools change
+//@   ensures [stored] $pFound[vestingPoolsP.Owner] && $pLen[vestingPoolsP.Owner] == len(vestingPoolsP.VestingPools) && otherOwnersUnchanged(vestingPoolsP.Owner)
+//@     && vestingPoolsP.Owner == old(vestingPoolsP.Owner)
+//@     && (forall i: int :: {vestingPoolsP.VestingPools[i]} {$pIL[vestingPoolsP.Owner][i]} {$pS[vestingPoolsP.Owner][i]} {$pW[vestingPoolsP.Owner][i]} 0 <= i && i < len(vestingPoolsP.VestingPools) ==>
+//@         $pIL[vestingPoolsP.Owner][i] == vestingPoolsP.VestingPools[i].InitiallyLocked && $pS[vestingPoolsP.Owner][i] == vestingPoolsP.VestingPools[i].Sent
+//@         && $pW[vestingPoolsP.Owner][i] == vestingPoolsP.VestingPools[i].Withdrawn)
+//@   // the other pool objects keep their amounts
+//@   ensures [others] forall i: int :: {vestingPoolsP.VestingPools[i]} 0 <= i && i < old(len(vestingPoolsP.VestingPools)) && vestingPoolsP.VestingPools[i] != validatorsVestingPools ==>
+//@         vestingPoolsP.VestingPools[i].InitiallyLocked == old(vestingPoolsP.VestingPools[i].InitiallyLocked) && vestingPoolsP.VestingPools[i].Sent == old(vestingPoolsP.VestingPools[i].Sent)
+//@         && vestingPoolsP.VestingPools[i].Withdrawn == old(vestingPoolsP.VestingPools[i].Withdrawn)
+//@   prop C16
+
+//@ // total locked of a pool list is unchanged when pool j gives up a0+a1+a2+a3 of its initially locked amount and four fresh
+//@ // pools holding a0..a3 (nothing sent, nothing withdrawn) are appended
+//@ lemma lockedPrefixMinus(il [int]int, s [int]int, w [int]int, il2 [int]int, n int, j int, amount int)
+//@   induction n
+//@   requires n >= 0 && (forall i: int :: {il2[i]} 0 <= i && i < n ==> il2[i] == il[i] - (i == j ? amount : 0))
+//@   ensures sumLocked(il2, s, w, n) == sumLocked(il, s, w, n) - ((0 <= j && j < n) ? amount : 0)
+//@   prop C16
+//@ lemma lockedFrameSW(il [int]int, s [int]int, w [int]int, s2 [int]int, w2 [int]int, n int)
+//@   induction n
+//@   requires n >= 0 && (forall i: int :: {s2[i]} 0 <= i && i < n ==> s2[i] == s[i] && w2[i] == w[i])
+//@   ensures sumLocked(il, s2, w2, n) == sumLocked(il, s, w, n)
+//@   prop C16
+//@ lemma splitKeepsLocked(il [int]int, s [int]int, w [int]int, il2 [int]int, s2 [int]int, w2 [int]int, n int, j int, a0 int, a1 int, a2 int, a3 int)
+//@   requires n >= 0 && 0 <= j && j < n
+//@   requires forall i: int :: {il2[i]} 0 <= i && i < n ==> il2[i] == il[i] - (i == j ? a0 + a1 + a2 + a3 : 0)
+//@   requires forall i: int :: {s2[i]} 0 <= i && i < n ==> s2[i] == s[i] && w2[i] == w[i]
+//@   requires il2[n] == a0 && il2[n + 1] == a1 && il2[n + 2] == a2 && il2[n + 3] == a3
+//@   requires s2[n] == 0 && s2[n + 1] == 0 && s2[n + 2] == 0 && s2[n + 3] == 0 && w2[n] == 0 && w2[n + 1] == 0 && w2[n + 2] == 0 && w2[n + 3] == 0
+//@   uses lockedPrefixMinus(il, s, w, il2, n, j, a0 + a1 + a2 + a3), lockedFrameSW(il2, s, w, s2, w2, n)
+//@   ensures sumLocked(il2, s2, w2, n + 4) == sumLocked(il, s, w, n)
+//@   fuel 5
+//@   prop C16
+
+//@ spec func vOwner() str = "c4e1p0smw03cwhqn05fkalfpcr0ngqv5jrpnx2cp54"
+//@ pred vtStoreUnchanged() = $vtFound == old($vtFound) && $vtFree == old($vtFree) && $vtLockup == old($vtLockup) && $vtVesting == old($vtVesting)
+//@ // the split is applied iff the hard-coded owner has a "Validators pool" with at least the split amount locked and the
+//@ // "Validators" vesting type exists
+//@ pred splitApplies() = $pFound[vOwner()] && lastNamed($pName[vOwner()], "Validators pool", $pLen[vOwner()]) >= 0
+//@   && (let j = lastNamed($pName[vOwner()], "Validators pool", $pLen[vOwner()]) in $pIL[vOwner()][j] - $pS[vOwner()][j] - $pW[vOwner()][j] >= splitSum())
+//@   && $vtFound["Validators"]
+//@ func ModifyVestingPoolsState(ctx, appKeepers) (err)
+//@   requires poolsOK(vOwner()) && bech32ok(vOwner())
+//@   modifies $pFound, $pLen, $pName, $pType, $pLockStart, $pLockEnd, $pIL, $pW, $pS, $pGenesis, $vtFound, $vtFree, $vtLockup, $vtVesting
+//@   uses lastNamedRange($pName[vOwner()], "Validators pool", $pLen[vOwner()])
+//@   ensures err == nil && otherOwnersUnchanged(vOwner())
+//@   // not at all: neither a pool record nor a vesting type changes
+//@   ensures [nothing] !old(splitApplies()) ==> poolStoreUnchanged()
+//@   ensures [nothing-types] !old(splitApplies()) ==> vtStoreUnchanged()
+//@   // completely: every existing pool keeps its sent and withdrawn history and its initially locked amount, except that the
+//@   // validators pool gives up exactly the split amount; four fresh pools hold exactly that amount
+//@   ensures [complete] old(splitApplies()) ==> (let n = old($pLen[vOwner()]) in let j = lastNamed(old($pName[vOwner()]), "Validators pool", n) in
+//@     $pFound[vOwner()] && $pLen[vOwner()] == n + 4
+//@     && (forall i: int :: {$pIL[vOwner()][i]} 0 <= i && i < n ==> $pS[vOwner()][i] == old($pS[vOwner()][i]) && $pW[vOwner()][i] == old($pW[vOwner()][i])
+//@          && $pIL[vOwner()][i] == old($pIL[vOwner()][i]) - (i == j ? splitSum() : 0))
+//@     && $pIL[vOwner()][n] == 15000000000000 && $pIL[vOwner()][n + 1] == 8000000000000 && $pIL[vOwner()][n + 2] == 9000000000000 && $pIL[vOwner()][n + 3] == 40000000000000
+//@     && $pS[vOwner()][n] == 0 && $pS[vOwner()][n + 1] == 0 && $pS[vOwner()][n + 2] == 0 && $pS[vOwner()][n + 3] == 0
+//@     && $pW[vOwner()][n] == 0 && $pW[vOwner()][n + 1] == 0 && $pW[vOwner()][n + 2] == 0 && $pW[vOwner()][n + 3] == 0)
+//@   // hence the owner's total locked is unchanged, and every pool is still solvent
+//@   uses_post splitKeepsLocked(old($pIL[vOwner()]), old($pS[vOwner()]), old($pW[vOwner()]), $pIL[vOwner()], $pS[vOwner()], $pW[vOwner()], old($pLen[vOwner()]),
+//@       lastNamed(old($pName[vOwner()]), "Validators pool", old($pLen[vOwner()])), 15000000000000, 8000000000000, 9000000000000, 40000000000000)
+//@   ensures [total-locked] sumLocked($pIL[vOwner()], $pS[vOwner()], $pW[vOwner()], $pLen[vOwner()]) == old(sumLocked($pIL[vOwner()], $pS[vOwner()], $pW[vOwner()], $pLen[vOwner()]))
+//@   ensures [solvent] poolsOK(vOwner())
+//@   prop C16
+//@ loop ModifyVestingPoolsState#1
+//@   invariant 0 <= \i && \i <= len(vestingPoolsP.VestingPools)
+//@   invariant lastNamed($pName[vOwner()], "Validators pool", \i) >= 0 ==> validatorsVestingPools == vestingPoolsP.VestingPools[lastNamed($pName[vOwner()], "Validators pool", \i)]
+//@   invariant lastNamed($pName[vOwner()], "Validators pool", \i) < 0 ==> validatorsVestingPools == nil
+//@   invariant lastNamed($pName[vOwner()], "Validators pool", \i) >= -1 && lastNamed($pName[vOwner()], "Validators pool", \i) < \i
+//@   // the loop only raises genesis flags: amounts, names and history of every pool object are as stored
+//@   invariant forall i: int :: {vestingPoolsP.VestingPools[i]} 0 <= i && i < len(vestingPoolsP.VestingPools) ==> poolAmountsAsStored(vestingPoolsP.VestingPools[i], i)
+//@ pred poolAmountsAsStored(p, i) = p != nil && p.Name == $pName[vOwner()][i] && !p.InitiallyLocked.IsNil() && p.InitiallyLocked == $pIL[vOwner()][i]
+//@   && !p.Withdrawn.IsNil() && p.Withdrawn == $pW[vOwner()][i] && !p.Sent.IsNil() && p.Sent == $pS[vOwner()][i]
